@@ -1,6 +1,7 @@
 // Schedule steering and stuck-state monitoring on top of the thread-pool hooks
 // (FASTSCAPELIB_VERIF_SCHED points in utils/thread_pool.hpp).  Shared by C10 and C11.
 #pragma once
+#include <algorithm>
 #include <atomic>
 #include <cassert>
 #include <chrono>
@@ -44,6 +45,10 @@ namespace vs
         std::atomic<unsigned> count[NTHREADS][NPOINTS];
         std::vector<Rule> rules;
         std::atomic<bool> steering{ false };
+        // all holds of one case together may take at most this long: an order constraint that
+        // cannot be satisfied only delays, and the delays of a case must stay far below the
+        // per-case stopwatch (64 firings x 200 ms x 5 rules would not)
+        std::atomic<long long> hold_budget_ms{ 4000 };
         // caller phase for the monitor
         std::atomic<long long> call_started_ms{ 0 };  // 0 = not inside a pool call
         std::atomic<unsigned long> call_start_seq{ 0 };  // event counter when that call began
@@ -60,6 +65,7 @@ namespace vs
                     count[t][p] = 0;
             }
             rules.clear();
+            hold_budget_ms = 4000;
             call_started_ms = 0;
         }
     };
@@ -112,8 +118,10 @@ namespace vs
                 // (an order constraint, bounded by 200 ms so that it can never block forever)
                 unsigned base = g_tr.count[r.until_tid][r.until_point].load(std::memory_order_relaxed);
                 long long t0 = now_ms();
-                while (g_tr.count[r.until_tid][r.until_point].load(std::memory_order_relaxed) == base && now_ms() - t0 < static_cast<long long>(r.bound_ms))
+                long long allowed = std::min<long long>(static_cast<long long>(r.bound_ms), g_tr.hold_budget_ms.load(std::memory_order_relaxed));
+                while (g_tr.count[r.until_tid][r.until_point].load(std::memory_order_relaxed) == base && now_ms() - t0 < allowed)
                     std::this_thread::yield();
+                g_tr.hold_budget_ms.fetch_sub(now_ms() - t0, std::memory_order_relaxed);
             }
         }
     }
